@@ -3,7 +3,7 @@ EXTENDS TsFile, Json
 CONSTANTS MaxCases, EmitVectors
 VARIABLES stage, cfg
 vars == <<stage, cfg>>
-LabelSets == { << >>, << <<"a", "a">>, <<"b", "b">> >>, << <<"1", "1">>, <<"2", "2">>, <<"3", "3">> >>,
+LabelSets == { << >>, << <<"a", "a">>, <<"b", "b">> >>, << <<"0", "0">>, <<"1", "1">>, <<"3", "3">> >>,
                << <<"Ab", "ab">>, <<"cD", "cd">> >> }
 Init == stage = "opts" /\ cfg = [opts |-> [comment |-> FALSE, equal |-> FALSE, labelled |-> FALSE], labels |-> << >>,
                                  panel |-> << >>, mut |-> "none", lines |-> << >>]
